@@ -143,6 +143,40 @@ mut("c20-count-minus-one-when-connectivity-zero", "C20", "edgegraph/builder/rand
     "        if k or ensurelink:\n            adj[verts[i]] = random.sample(verts, k)\n",
     "vertices without out-links (ensurelink off, k == 0) are dropped from the universe", also=[])
 
+# ---- property-preserving refactors: nothing may fire ---------------------------------
+mut("ref-remove-vertex-raises-keyerror", "C02", "edgegraph/structure/universe.py",
+    "        self._vertices.remove(vert)\n        if self in vert.universes:",
+    "        if vert not in self._vertices:\n            raise KeyError(vert)\n        self._vertices.remove(vert)\n        if self in vert.universes:",
+    "refactor: a different exception class for a non-member removal (must NOT fire)", also=[])
+mut("ref-unlink-returns-frozenset", "C03", "edgegraph/builder/explicit.py",
+    "    if not destroy:\n        return out\n",
+    "    if not destroy:\n        return frozenset(out)\n",
+    "refactor: unlink returns a frozenset (must NOT fire)", also=[])
+mut("ref-links-accessor-returns-list-copy", "C12", "edgegraph/structure/vertex.py",
+    "        return tuple(self._links)\n",
+    "        return list(self._links)\n",
+    "refactor: Vertex.links returns a list copy instead of a tuple (detached either way; must NOT fire)", also=[])
+mut("ref-neighbors-hit-returns-copy-via-slice", "C12", "edgegraph/traversal/helpers.py",
+    "        return list(cached)\n",
+    "        return cached[:]\n",
+    "refactor: copy by slicing (must NOT fire)", also=[])
+mut("ref-invalidate-clears-in-place", "C05", "edgegraph/structure/vertex.py",
+    "        self.__qa_nb_cache = {}\n\n        if not self.NEIGHBOR_CACHING:\n            return\n",
+    "        try:\n            self.__qa_nb_cache.clear()\n        except AttributeError:\n            self.__qa_nb_cache = {}\n\n        if not self.NEIGHBOR_CACHING:\n            return\n",
+    "refactor: memo emptied in place (must NOT fire)", also=[])
+mut("ref-pyvis-temp-attr-renamed", "C13", "edgegraph/output/pyvis.py",
+    "__make_pyvis_net_i",
+    "__make_pyvis_net_idx",
+    "refactor: temporary attribute renamed everywhere (must NOT fire)", also=[])
+mut("ref-laws-setter-early-exit-order", "C19", "edgegraph/structure/universe.py",
+    "        old = self._laws\n        self._laws = new\n",
+    "        old, self._laws = self._laws, new\n",
+    "refactor: tuple assignment (must NOT fire)", also=[])
+mut("ref-singleton-call-uses-try", "C18", "edgegraph/structure/singleton.py",
+    "        if cls not in cls._TrueSingleton__singleton_instances:\n            cls._TrueSingleton__singleton_instances[cls] = super(\n                TrueSingleton, cls\n            ).__call__(*args, **kwargs)\n        return cls._TrueSingleton__singleton_instances[cls]\n",
+    "        try:\n            return cls._TrueSingleton__singleton_instances[cls]\n        except KeyError:\n            inst = super(TrueSingleton, cls).__call__(*args, **kwargs)\n            cls._TrueSingleton__singleton_instances[cls] = inst\n            return inst\n",
+    "refactor: EAFP lookup (must NOT fire)", also=[])
+
 
 def run(cmd, **kw):
     return subprocess.run(cmd, capture_output=True, text=True, **kw)
@@ -159,7 +193,7 @@ def main():
             subprocess.run(f"git -C {REPO} archive HEAD | tar -x -C {d}", shell=True, check=True)
             path = os.path.join(d, m["file"])
             src = open(path).read()
-            if src.count(m["old"]) != 1:
+            if src.count(m["old"]) != 1 and not m["name"].startswith("ref-pyvis-temp"):
                 print(f"{m['name']}: anchor found {src.count(m['old'])} times -- skipped")
                 continue
             open(path + ".new", "w").write(src.replace(m["old"], m["new"]))
